@@ -160,7 +160,8 @@ Record instance := mkInst {
 Record snapshot := mkSnap {
   sn_states : list Z;             (* port_state_code per port *)
   sn_ds : inst_ds;
-  sn_mean_delays : list (option Z)
+  sn_mean_delays : list (option Z);
+  sn_roles : list (bool * bool)   (* (Port::is_steering(), Port::is_master()) per port *)
 }.
 
 (** Field updaters *)
